@@ -168,7 +168,7 @@ Bump(k, h) ==
 UsedIsSum == used = Sum(costs)
 
 \* C01: never above max_cost except by what updates / a lowered max have added since the last admission
-Bounded == (ev = Nil \/ ev.phase = "done") => used <= maxCost + slack
+Bounded == (ev = Nil \/ ev.phase = "done") => (used = 0 \/ used <= maxCost + slack)
 
 \* C01: every admission of a new key re-establishes total <= max_cost; oversize never admitted
 AdmissionBound ==
